@@ -105,7 +105,7 @@ func init() {
 			"distinct = hash(config, ops); non-trivial = >=3 commits and >=1 of {prune, rollback-to-version, load of an older version, re-commit of an existing version}.",
 		Assumptions: []string{"model M for the version range; reference tree R decides whether a re-commit is identical", "LoadVersion(v<=0) means 'latest' (library convention)"},
 		Run: func(c *fw.Ctx) {
-			w := map[string]int{"set": 26, "rm": 10, "save": 30, "rollback": 3, "reopen": 8, "load": 8, "delto": 9, "lfo": 4, "delfrom": 2}
+			w := map[string]int{"set": 26, "rm": 10, "save": 30, "rollback": 3, "reopen": 8, "load": 8, "delto": 9, "lfo": 4, "delfrom": 2, "redo": 4}
 			p := &v1x.GenParams{MinOps: 10, MaxOps: 45, W: w, MaxKeys: 5, InvalidPct: 12,
 				Backends: []string{"mem"}, Initials: []int64{0, 0, 0, 1, 5, 63, 64, 1000000}}
 			if c.Tier == "thorough" {
